@@ -1988,13 +1988,18 @@ func genSurface(rng *rand.Rand, name string, surf []lockstep.MethodInfo, frac in
 	for i := 0; i < 3; i++ {
 		p.Steps = append(p.Steps, Step{Step: "vote", Pid: 0, By: fmt.Sprintf("@admin%d", i), Ballot: "approve"})
 	}
+	// a governance admin that has been frozen: no longer one of "the governance admins" the privileged operations are reserved to
+	p.Steps = append(p.Steps, Step{Step: "submit", M: "FreezeRole", By: "@admin0", Obj: "x", Args: []string{"@admin3", "r"}})
+	for i := 0; i < 3; i++ {
+		p.Steps = append(p.Steps, Step{Step: "vote", Pid: 1, By: fmt.Sprintf("@admin%d", i), Ballot: "approve"})
+	}
 	p.Steps = append(p.Steps, Step{Step: "open", M: "FreezeService", Obj: "chainB:svc1"})
 	strs := []string{"chainA", "chainB", "chainA:svc1", "chainB:svc1", "svc:chainA:svc1", "svc:chainB:svc1", "svc:chainA:svc1-1356:chainB:svc1-2",
 		"svc:chainA:svc1-1356:chainB:svc1-1", "@proposal", "@admin0", "@admin1", "@admin-chainA", "@admin-chainB", "@u3",
 		"0x00000000000000000000000000000000000000a2", "register", "update", "freeze", "activate", "logout", "pause", "unpause", "clear", "bind",
 		"available", "frozen", "approve", "reject", "governanceAdmin", "appchainAdmin", "auditAdmin", "vpNode", "nvpNode", "ServiceMgr", "AppchainMgr", "SimpleMajority", "a > 0.5 * t",
 		"name-chainA", "CallContract", "ETH", "x", ""}
-	ids := []string{"chainA", "chainA:svc1", "svc:chainA:svc1", "svc:chainA:svc1-1356:chainB:svc1-2", "svc:chainA:svc1-1356:chainB:svc1-1", "@proposal", "@admin-chainA", "chainB:svc1"}
+	ids := []string{"chainA", "chainA:svc1", "svc:chainA:svc1", "svc:chainA:svc1-1356:chainB:svc1-2", "svc:chainA:svc1-1356:chainB:svc1-1", "@proposal", "@admin-chainA", "chainB:svc1", "@nvp1"}
 	arg := func(t string) (string, bool) {
 		switch t {
 		case "string":
@@ -2017,7 +2022,7 @@ func genSurface(rng *rand.Rand, name string, surf []lockstep.MethodInfo, frac in
 		}
 		return "", false // not constructible through the transaction encoding
 	}
-	roles := []struct{ role, acct string }{{"outsider", "u3"}, {"otheradmin", "admin-CHAINA"}, {"otheradmin", "admin-chainB"}, {"govadmin", "@admin1"}, {"nodeacct", "nvp1"}}
+	roles := []struct{ role, acct string }{{"outsider", "u3"}, {"otheradmin", "admin-CHAINA"}, {"otheradmin", "admin-chainB"}, {"govadmin", "@admin1"}, {"nodeacct", "nvp1"}, {"frozenadmin", "@admin3"}}
 
 	var calls []Tx
 	combo := 0
@@ -2031,6 +2036,9 @@ func genSurface(rng *rand.Rand, name string, surf []lockstep.MethodInfo, frac in
 			tries := 2
 			if !mi.Promoted && !strings.HasPrefix(mi.M, "Get") && !strings.HasPrefix(mi.M, "Is") && !strings.HasPrefix(mi.M, "Count") {
 				tries = 10
+				if ro.role == "frozenadmin" { // its calls pass every check but the availability of the caller: more argument vectors
+					tries = 30
+				}
 			}
 			for try := 0; try < tries; try++ {
 				var args []string
